@@ -132,6 +132,8 @@ ATOMS = [
     # values that are present but falsy and no strings: matched as str(value), not as the empty string
     A("literal", "False", key="flag"), A("literal", "0", key="n"), A("re", "\\[\\]", key="role"), A("glob", "0.?", key="none"),
     A("literal", "{}", key="my key"),
+    # character classes are wildcards too, also when they are the only ones in the pattern
+    A("glob", "web-[12]", cs=False), A("glob", "db[!2].example.com"), A("glob", "[wW]eb", key="role"),
 ]
 
 SYSTEMS = [
